@@ -10,6 +10,7 @@ import (
 	"path/filepath"
 	"strings"
 
+	"github.com/JunNishimura/Goit/internal/atomicfile"
 	"github.com/JunNishimura/Goit/internal/binary"
 	"github.com/JunNishimura/Goit/internal/sha"
 )
@@ -148,12 +149,8 @@ func (o *Object) Write(rootGoitPath string) error {
 			return fmt.Errorf("%w: %s", ErrIOHandling, dirPath)
 		}
 	}
-	f, err := os.Create(filePath)
-	if err != nil {
-		return fmt.Errorf("%w: %s", ErrIOHandling, filePath)
-	}
-	defer f.Close()
-	if _, err := f.Write(buf.Bytes()); err != nil {
+	// never truncate an object that is already stored (and possibly referenced): replace it in one step
+	if err := atomicfile.Write(filePath, rootGoitPath, buf.Bytes()); err != nil {
 		return fmt.Errorf("%w: %s", ErrIOHandling, filePath)
 	}
 	return nil
